@@ -14,7 +14,7 @@ from .common import COQ, coq_str
 
 PID = "C13"
 PROPS_FILE = "props/C13.v"
-MODEL_TARGETS = ["model/Hash.vo", "model/HashSites.vo"]
+MODEL_TARGETS = ["model/Hash.vo", "model/HashSites.vo", "model/HashSkip.vo", "model/HashJson.vo"]
 RULE = ("E1: random step configurations (label, shell flag, input map, environment map with undefined "
         "variables, overrides, output map; names over an alphabet with non-ASCII, control and marker-like "
         "characters and the section keywords themselves; digests random, with embedded marker bytes, or "
@@ -83,6 +83,17 @@ def generate(ctx):
     ctx.write_gen("GenHashSites.v", text)
     ctx.site_facts = sfacts
     ctx.stats["translated_sites"] = sfacts
+    # the skip decision (compute_inp_hashes per path, try_skip_job) and the stored form of the hashes
+    from translator import gen_hash_json, gen_hash_skip
+    ctx.skip_facts = ctx.json_facts = None
+    text, kfacts = gen_hash_skip.generate()
+    ctx.write_gen("GenHashSkip.v", text)
+    ctx.skip_facts = kfacts
+    ctx.stats["translated_skip"] = kfacts
+    text, jfacts = gen_hash_json.generate()
+    ctx.write_gen("GenHashJson.v", text)
+    ctx.json_facts = jfacts
+    ctx.stats["translated_json"] = jfacts
 
 
 # ---------------------------------------------------------------------------------------------
@@ -272,7 +283,9 @@ def _from_jsonable(o):
 
 CLOSURE = ["lib/Bytes.v", "lib/KeySort.v", "model/HashTypes.v", "gen/GenHash.v", "model/Hash.v",
            "proofs/HashProofs.v", "model/HashSiteTypes.v", "gen/GenHashSites.v", "model/HashSites.v",
-           "proofs/HashSitesProofs.v", "props/C13.v"]
+           "proofs/HashSitesProofs.v", "lib/Base85.v", "model/HashSkipTypes.v", "gen/GenHashSkip.v", "model/HashSkip.v",
+           "proofs/HashSkipProofs.v", "model/HashJsonTypes.v", "gen/GenHashJson.v", "model/HashJson.v",
+           "proofs/HashJsonProofs.v", "props/C13.v"]
 
 
 def correspondence(ctx):
@@ -290,6 +303,14 @@ def correspondence(ctx):
         ctx.notes.append("E2 (call sites) model comparison skipped: the translator did not produce gen/GenHashSites.v")
     else:
         _e2_sites(ctx)
+    if getattr(ctx, "skip_facts", None) is None:
+        ctx.notes.append("E3 (compute_inp_hashes) model comparison skipped: the translator did not produce gen/GenHashSkip.v")
+    else:
+        _e3_inp_guard(ctx)
+    if getattr(ctx, "json_facts", None) is None:
+        ctx.notes.append("E4 (stored hashes) model comparison skipped: the translator did not produce gen/GenHashJson.v")
+    else:
+        _e4_json(ctx)
 
 
 class _Recorder:
@@ -689,6 +710,206 @@ def _oracle_sites(ctx, per_kind):
                                      (f"an output change ({kind}) changed the input digest", kind, s, d))
     for sig, (detail, kind, s, d) in fails.items():
         ctx.add_failure("oracle", sig.split(":", 1)[1], sig, detail, witness={"kind": kind, "s1": s, "s2": d})
+
+
+
+# ---------------------------------------------------------------------------------------------
+# E3: compute_inp_hashes (the guard in front of StepHash.from_inp) versus model/HashSkip.v
+# ---------------------------------------------------------------------------------------------
+
+def _header_skip():
+    return (HEADER + "From SV Require Import model.HashSiteTypes gen.GenHashSites model.HashSites "
+            "model.HashSkipTypes gen.GenHashSkip model.HashSkip.\n"
+            "Definition outcome_code (r : option (bool * list (str * fhash))) : N :=\n"
+            "  match r with None => 2 | Some (true, _) => 1 | Some (false, _) => 0 end.\n"
+            "Definition all_of (r : option (bool * list (str * fhash))) : list (str * fhash) :=\n"
+            "  match r with None => [] | Some (_, l) => l end.\n"
+            "Fixpoint all_eqb (a b : list (str * fhash)) : bool :=\n"
+            "  match a, b with [], [] => true | (p, h) :: a', (q, g) :: b' => str_eqb p q && fh_all_eqb h g && all_eqb a' b'\n"
+            "  | _, _ => false end.\n")
+
+
+def _e3_inp_guard(ctx):
+    """Real files, the real compute_inp_hashes over one or two recorded paths (sorted order; changed,
+    vanished, never-present inputs) against compute_inp_hashes of model/HashSkip.v: same outcome
+    (quiet / messages / ConsistencyError) and the same all_hashes, field by field."""
+    import threading
+
+    from stepup.core.exceptions import ConsistencyError
+    from stepup.core.hash import FileHash, compute_inp_hashes
+    rng = ctx.rng
+    n = ctx.scale(45, 450)
+    checks, descr = [], []
+    with tempfile.TemporaryDirectory(prefix="verif-c13-g-") as d:
+        prepared = []
+        for k in range(n):
+            op = REFRESH_OPS[k % len(REFRESH_OPS)]
+            path = os.path.join(d, f"g{k:04d}")
+            if op != "start_unknown_missing":
+                with open(path, "wb") as fh:
+                    fh.write(rng.randbytes(rng.choice([0, 1, 7, 64])))
+                os.chmod(path, rng.choice([0o644, 0o600, 0o755]))
+            old = FileHash.unknown() if op in ("start_unknown", "start_unknown_missing") \
+                else FileHash.unknown().refreshed(path)
+            _apply_op(rng, op, path)
+            if op == "remove_then_again":
+                old = old.refreshed(path)
+            try:
+                st, data = os.stat(path), open(path, "rb").read()
+            except OSError:
+                st, data = None, None
+            prepared.append((op, path, old, st, data))
+        for k, first in enumerate(prepared):
+            entries = [first]
+            if k % 2:
+                other = prepared[rng.randrange(len(prepared))]
+                if other[1] != first[1]:
+                    entries.append(other)
+            if k % 4 == 3:
+                entries.reverse()   # supply order differs from path order
+            try:
+                res = compute_inp_hashes({p: o for _, p, o, _, _ in entries}, threading.Event())
+                code, allh = (1 if res.messages else 0), list(res.all_hashes.items())
+            except ConsistencyError:
+                code, allh = 2, []
+            disk = "(fun p => " + "".join(
+                f"if str_eqb p {q_str(p)} then "
+                + ("None" if s is None else
+                   f"Some (mk_fstat {s.st_mode} {_mtime_bits(s.st_mtime)} {s.st_size} {s.st_ino}, "
+                   f"{q_str(hashlib.sha256(dt).digest())})")
+                + " else " for _, p, _, s, dt in entries) + "None)"
+            olds = "[" + "; ".join(f"({q_str(p)}, {q_fhash(o)})" for _, p, o, _, _ in entries) + "]"
+            term = f"compute_inp_hashes (fun d => d) {disk} {olds}"
+            want_all = "[" + "; ".join(f"({q_str(p)}, {q_fhash(h)})" for p, h in allh) + "]"
+            tail = "true" if code == 2 else f"all_eqb (all_of ({term})) {want_all}"
+            checks.append(f"(outcome_code ({term}) =? {code}) && {tail}")
+            descr.append({"ops": [e[0] for e in entries], "outcome": ["quiet", "messages", "ConsistencyError"][code],
+                          "olds": [repr(e[2]) for e in entries], "exists": [e[3] is not None for e in entries]})
+            ctx.case(("inp-guard", tuple(descr[-1]["ops"]), code), True)
+            ctx.count("inp_guard_" + descr[-1]["outcome"])
+    bad = common.run_cases(ctx, "inpguard", _header_skip(), checks, chunk=100)
+    ctx.traces_validated += len(checks) - len(bad)
+    for i in bad[:3]:
+        ctx.add_failure("correspondence", "E3:compute_inp_hashes",
+                        f"E3:compute_inp_hashes:model-differs:{descr[i]['outcome']}",
+                        f"model and hash.compute_inp_hashes disagree (implementation: {descr[i]['outcome']}): {descr[i]}",
+                        witness=descr[i])
+
+
+# ---------------------------------------------------------------------------------------------
+# E4: stored hashes (cattrs' JSON converter) versus gen/GenHashJson.v
+# ---------------------------------------------------------------------------------------------
+
+
+def _header_json():
+    return (HEADER + "From SV Require Import lib.Base85 model.HashJsonTypes gen.GenHashJson model.HashSkipTypes model.HashJson.\n"
+            "Fixpoint jval_eqb (a b : jval) : bool :=\n"
+            "  match a, b with\n"
+            "  | JNull, JNull => true\n"
+            "  | JStr x, JStr y => str_eqb x y\n"
+            "  | JInt x, JInt y => x =? y\n"
+            "  | JFloat x, JFloat y => x =? y\n"
+            "  | JObj f, JObj g =>\n"
+            "      (fix go (f g : list (str * jval)) : bool :=\n"
+            "         match f, g with\n"
+            "         | [], [] => true\n"
+            "         | (k, v) :: f', (k', v') :: g' => str_eqb k k' && jval_eqb v v' && go f' g'\n"
+            "         | _, _ => false\n"
+            "         end) f g\n"
+            "  | _, _ => false\n"
+            "  end.\n"
+            "Definition ojval_eqb (a b : option jval) : bool :=\n"
+            "  match a, b with Some x, Some y => jval_eqb x y | None, None => true | _, _ => false end.\n"
+            "Definition sx_back (j : jval) (x : stephash) : bool :=\n"
+            "  match sx_structure j with Some y => jval_eqb (sx_unstructure y) (sx_unstructure x) | None => false end.\n"
+            "Definition fh_back (v : option jval) (h : fhash) : bool :=\n"
+            "  match fh_from_json v with Some g => fh_all_eqb g h | None => false end.\n")
+
+
+def q_jval(v):
+    if v is None:
+        return "JNull"
+    if isinstance(v, bool):
+        raise TypeError("bool in a stored hash")
+    if isinstance(v, str):
+        return f"(JStr {q_str(v)})"
+    if isinstance(v, int):
+        return f"(JInt {v})"
+    if isinstance(v, float):
+        return f"(JFloat {_mtime_bits(v)})"
+    if isinstance(v, dict):
+        return "(JObj [" + "; ".join(f"({q_str(k)}, {q_jval(x)})" for k, x in v.items()) + "])"
+    raise TypeError(type(v))
+
+
+def _q_files_full(m):
+    return "[" + "; ".join(f"({q_str(k)}, {q_fhash(h)})" for k, h in m.items()) + "]"
+
+
+def q_stephash(sh):
+    def opt(x, f):
+        return "None" if x is None else f"(Some {f(x)})"
+    ii = opt(sh.inp_info, lambda i: "(mk_ii " + _q_files_full(i.inp_hashes) + " ["
+             + "; ".join(f"({q_str(k)}, {'None' if v is None else '(Some ' + q_str(v) + ')'})" for k, v in i.env_values.items())
+             + "] [" + "; ".join(f"({q_str(k)}, {q_str(v)})" for k, v in i.env_overrides.items()) + "])")
+    oi = opt(sh.out_info, lambda o: "(mk_oi " + _q_files_full(o.out_hashes) + ")")
+    return f"(mk_sx {q_str(sh.inp_digest)} {ii} {opt(sh.out_digest, q_str)} {oi})"
+
+
+def _e4_json(ctx):
+    """The object handed to json.dumps by to_json is the model's tree; the tree survives json.dumps/loads;
+    structuring the loaded tree in the model gives the hash back."""
+    from stepup.core.cattrs import json_converter
+    from stepup.core.hash import FileHash, StepHash
+    rng = ctx.rng
+    checks, descr = [], []
+
+    def text_layer(tree, what):
+        back = json.loads(json.dumps(tree))
+        if back != tree or json.dumps(back) != json.dumps(tree):
+            _add_once(ctx, "correspondence", "E4:json-text", f"E4:json-text-layer:{what}",
+                      "json.loads(json.dumps(tree)) is not the tree that to_json serialises", {"tree": repr(tree)[:400]})
+
+    for i in range(ctx.scale(40, 600)):
+        fh = FileHash(rng.randbytes(32), _int64(rng) % 2 ** 32, rng.choice([0.0, 1234.5, 1.7e9 + rng.random(), 2.0 ** 31 + 1e-6, 1e-300]),
+                      _int64(rng), rng.choice([0, 1, 2 ** 63 + 1, 2 ** 64 - 1, rng.getrandbits(64)]))
+        if i % 9 == 0:
+            fh = FileHash.unknown()
+        tree = None if fh.is_unknown else json_converter.unstructure(fh)
+        stored = fh.to_json()
+        if (stored is None) != (tree is None) or (stored is not None and json.loads(stored) != tree):
+            _add_once(ctx, "correspondence", "E4:to_json", "E4:FileHash.to_json-is-not-dumps-of-unstructure",
+                      "FileHash.to_json does not store json.dumps(unstructure(self)) / NULL", {"hash": repr(fh)})
+        if tree is not None:
+            text_layer(tree, "FileHash")
+        qt = "None" if tree is None else f"(Some {q_jval(tree)})"
+        checks.append(f"ojval_eqb (fh_to_json {q_fhash(fh)}) {qt} && fh_back {qt} {q_fhash(FileHash.from_json(stored))}")
+        descr.append({"kind": "FileHash", "hash": repr(fh), "stored": stored})
+        ctx.case(("json-model-file", fh.digest.hex(), fh.mtime), True)
+    for i in range(ctx.scale(40, 600)):
+        c = _config(rng)
+        explained = bool(i % 2)
+        mk = lambda t: FileHash(t[0], t[1], rng.choice([0.0, 1.5, 1.7e9]), t[2], rng.getrandbits(40))  # noqa: E731
+        sh = StepHash.from_inp(c["label"], {k: mk(v) for k, v in c["inps"].items()}, dict(c["envs"]),
+                               explained=explained, shell=c["shell"], env_overrides=dict(c["ovrs"]))
+        if i % 3:
+            sh = sh.with_out_hashes({k: mk(v) for k, v in c["outs"].items()})
+        tree = json_converter.unstructure(sh)
+        if json.loads(sh.to_json()) != tree:
+            _add_once(ctx, "correspondence", "E4:to_json", "E4:StepHash.to_json-is-not-dumps-of-unstructure",
+                      "StepHash.to_json does not store json.dumps(unstructure(self))", {"cfg": _jsonable(c)})
+        text_layer(tree, "StepHash")
+        back = StepHash.from_json(sh.to_json())
+        checks.append(f"jval_eqb (sx_to_json {q_stephash(sh)}) {q_jval(tree)} && sx_back {q_jval(tree)} {q_stephash(back)}")
+        descr.append({"kind": "StepHash", "explained": explained, "cfg": _jsonable(c), "stored": sh.to_json()[:300]})
+        ctx.case(("json-model-step", explained, json.dumps(_jsonable(c), sort_keys=True)), True)
+        ctx.count("json_model_explained" if explained else "json_model_compact")
+    bad = common.run_cases(ctx, "json", _header_json(), checks, chunk=60)
+    ctx.traces_validated += len(checks) - len(bad)
+    for i in bad[:3]:
+        ctx.add_failure("correspondence", "E4:json", f"E4:json:model-differs:{descr[i]['kind']}",
+                        f"the tree cattrs hands to json.dumps / the hash structured from it is not the model's: {descr[i]}",
+                        witness=descr[i])
 
 
 # ---------------------------------------------------------------------------------------------
